@@ -70,18 +70,20 @@ def fam_linear(rng, n=None):
     for i in range(n):
         A[i][i] = -abs(A[i][i]) - 0.1
     y0 = [round(rng.uniform(-2, 2), 3) or 1.0 for _ in range(n)]
-    return {"name": "linear%d" % n, "f": [lin(A[i], n) for i in range(n)], "y0": y0, "span": rng.uniform(0.5, 6.0)}
+    return {"name": "linear%d" % n, "f": [lin(A[i], n) for i in range(n)], "y0": y0, "span": rng.uniform(0.5, 6.0),
+            "jac": [[C(A[i][j]) for j in range(n)] for i in range(n)]}
 
 
 def fam_sho(rng):
     w = rng.choice([1.0, 2.0, 0.5, 3.0])
-    return {"name": "sho", "f": [Y(1), neg(mul(C(w * w), Y(0)))], "y0": [1.0, 0.0], "span": rng.uniform(1.0, 12.0)}
+    return {"name": "sho", "f": [Y(1), neg(mul(C(w * w), Y(0)))], "y0": [1.0, 0.0], "span": rng.uniform(1.0, 12.0),
+            "jac": [[C(0.0), C(1.0)], [C(-(w * w)), C(0.0)]]}
 
 
 def fam_logistic(rng):
     r = rng.uniform(0.5, 3.0)
     return {"name": "logistic", "f": [mul(mul(C(r), Y(0)), sub(C(1.0), Y(0)))], "y0": [rng.uniform(0.05, 0.5)],
-            "span": rng.uniform(1.0, 8.0)}
+            "span": rng.uniform(1.0, 8.0), "jac": [[sub(C(r), mul(C(2.0 * r), Y(0)))]]}
 
 
 def fam_rational(rng):
@@ -92,14 +94,16 @@ def fam_rational(rng):
 def fam_vdp(rng):
     mu = rng.choice([0.5, 1.0, 2.0, 5.0])
     return {"name": "vdp", "f": [Y(1), sub(mul(mul(C(mu), sub(C(1.0), mul(Y(0), Y(0)))), Y(1)), Y(0))],
-            "y0": [2.0, 0.0], "span": rng.uniform(1.0, 10.0)}
+            "y0": [2.0, 0.0], "span": rng.uniform(1.0, 10.0),
+            "jac": [[C(0.0), C(1.0)],
+                    [sub(mul(mul(C(-2.0 * mu), Y(0)), Y(1)), C(1.0)), mul(C(mu), sub(C(1.0), mul(Y(0), Y(0))))]]}
 
 
 def fam_forced(rng):
     lam = rng.choice([1.0, 5.0, 20.0, 50.0])
     # y' = -lam (y - t^2) + 2 t
     return {"name": "forced", "f": [add(mul(C(-lam), sub(Y(0), mul(T, T))), mul(C(2.0), T))], "y0": [rng.uniform(-1, 1)],
-            "span": rng.uniform(0.5, 4.0), "forward_only": True}
+            "span": rng.uniform(0.5, 4.0), "forward_only": True, "jac": [[C(-lam)]]}
 
 
 def fam_rot3(rng):
@@ -142,6 +146,49 @@ def fam_stiff_explicit(rng):
     lam = rng.choice([1e3, 1e4, 1e5])
     return {"name": "stiffdecay", "f": [mul(C(-lam), Y(0))], "y0": [1.0], "span": rng.uniform(0.5, 2.0), "forward_only": True}
 
+
+def fam_stiff_forced(rng):
+    lam = rng.choice([1e2, 1e4, 1e6, 1e8, 1e10])
+    # y' = -lam (y - t^2) + 2 t ,  y(0) = 0  ->  y = t^2 (plus a transient if y0 != 0)
+    y0 = rng.choice([0.0, 0.5])
+    return {"name": "stiff_forced", "f": [add(mul(C(-lam), sub(Y(0), mul(T, T))), mul(C(2.0), T))], "y0": [y0],
+            "span": rng.uniform(0.5, 3.0), "forward_only": True, "x0": 0.0, "jac": [[C(-lam)]], "lam": lam}
+
+
+def fam_stiff_linear(rng, n=None):
+    n = n or rng.randint(2, 6)
+    lam = rng.choice([1e2, 1e4, 1e6, 1e8])
+    # block: slow decay coupled to fast decaying components
+    A = [[0.0] * n for _ in range(n)]
+    for i in range(n):
+        A[i][i] = -1.0 if i == 0 else -lam * (1.0 + 0.1 * i)
+        if i > 0:
+            A[i][0] = lam * 0.5
+    y0 = [1.0] + [0.3] * (n - 1)
+    return {"name": "stiff_linear%d" % n, "f": [lin(A[i], n) for i in range(n)], "y0": y0, "span": rng.uniform(0.5, 3.0),
+            "forward_only": True, "x0": 0.0, "jac": [[C(A[i][j]) for j in range(n)] for i in range(n)], "lam": lam}
+
+
+def fam_robertson(rng):
+    f = [add(mul(C(-0.04), Y(0)), mul(mul(C(1e4), Y(1)), Y(2))),
+         sub(sub(mul(C(0.04), Y(0)), mul(mul(C(1e4), Y(1)), Y(2))), mul(mul(C(3e7), Y(1)), Y(1))),
+         mul(mul(C(3e7), Y(1)), Y(1))]
+    jac = [[C(-0.04), mul(C(1e4), Y(2)), mul(C(1e4), Y(1))],
+           [C(0.04), sub(mul(C(-1e4), Y(2)), mul(C(6e7), Y(1))), mul(C(-1e4), Y(1))],
+           [C(0.0), mul(C(6e7), Y(1)), C(0.0)]]
+    return {"name": "robertson", "f": f, "y0": [1.0, 0.0, 0.0], "span": rng.choice([1.0, 40.0, 400.0]),
+            "forward_only": True, "x0": 0.0, "jac": jac, "invariant": [1.0, 1.0, 1.0]}
+
+
+def fam_vdp_stiff(rng):
+    mu = rng.choice([50.0, 200.0, 1000.0])
+    return {"name": "vdp_stiff", "f": [Y(1), sub(mul(mul(C(mu), sub(C(1.0), mul(Y(0), Y(0)))), Y(1)), Y(0))],
+            "y0": [2.0, 0.0], "span": rng.uniform(0.5, 2.0), "forward_only": True, "x0": 0.0,
+            "jac": [[C(0.0), C(1.0)],
+                    [sub(mul(mul(C(-2.0 * mu), Y(0)), Y(1)), C(1.0)), mul(C(mu), sub(C(1.0), mul(Y(0), Y(0))))]]}
+
+
+STIFF = [fam_stiff_forced, fam_stiff_linear, fam_robertson, fam_vdp_stiff]
 
 SMOOTH = [fam_linear, fam_sho, fam_logistic, fam_rational, fam_vdp, fam_forced, fam_rot3, fam_zero, fam_const]
 PATHO = [fam_blowup, fam_discont, fam_nan_after, fam_inf_after, fam_stiff_explicit]
@@ -188,7 +235,8 @@ def opt_str(v):
 
 
 def solve_case(cid, method, prob, x0, xend, rtol, atol, defaults, max_steps=None, first_step=None, max_step=None,
-               min_step=None, t_eval=None, dense=False, events=(), query=(), full=False, extra=""):
+               min_step=None, t_eval=None, dense=False, events=(), query=(), full=False, extra="",
+               use_jac=False, mass=None, jac_storage="full", mass_storage="identity"):
     d = defaults[method]
     toks = ["solve", "id=%s" % cid, "method=%s" % method, "x0=" + hx(x0), "xend=" + hx(xend),
             "y0=" + hxlist(prob["y0"]), "rtol=" + tol_str(rtol), "atol=" + tol_str(atol),
@@ -200,6 +248,16 @@ def solve_case(cid, method, prob, x0, xend, rtol, atol, defaults, max_steps=None
             "f=%d:%s" % (len(prob["f"]), ";".join(prob["f"])),
             "ev=%d:%s" % (len(events), ";".join(events)),
             "query=" + hxlist(query)]
+    if use_jac and prob.get("jac"):
+        n = len(prob["jac"])
+        toks.append("jac=%d:%s" % (n, ";".join(e for row in prob["jac"] for e in row)))
+    if mass is not None:
+        n = len(mass)
+        toks.append("mass=%d:%s" % (n, ",".join(hx(v) for row in mass for v in row)))
+    if jac_storage != "full":
+        toks.append("jacstorage=" + jac_storage)
+    if mass_storage != "identity":
+        toks.append("massstorage=" + mass_storage)
     if full:
         toks.append("full=1")
     if extra:
